@@ -4,6 +4,7 @@ from __future__ import annotations
 import contextlib
 import io
 import json
+import os
 import shutil
 import tempfile
 import warnings
@@ -13,7 +14,7 @@ import numpy as np
 
 from props.c05 import gen_cfg
 from vp import twin
-from vp.core import LEAN, Check, f2h, lean_run
+from vp.core import HarnessError, LEAN, Check, f2h, lean_run
 from vp.deep import deep, diff
 
 MODULE = "BlackIt.Properties.C04"
@@ -109,13 +110,15 @@ def op_script(chk, rng, cfg, script):
     try:
         with contextlib.redirect_stdout(io.StringIO()), warnings.catch_warnings():
             warnings.simplefilter("ignore")
-            cal = twin.build(cfg, folder)
+            auto = not cfg.get("explicit_only")          # explicit_only: no saving folder, only create_checkpoint() calls write
+            cal = twin.build(cfg, folder if auto else None)
             saved = None
             for op in script:
               try:
                 if op[0] == "C":
                     cal.calibrate(op[1])
-                    saved = deep(cal) if cal.current_batch_index > 0 else saved     # calibrate() checkpoints after each batch
+                    if auto:
+                        saved = deep(cal) if cal.current_batch_index > 0 else saved     # calibrate() checkpoints after each batch
                 elif op[0] == "K":
                     cal.create_checkpoint(folder)
                     saved = deep(cal)
@@ -187,6 +190,49 @@ def real_folder_saves(snaps):
         shutil.rmtree(folder, ignore_errors=True)
 
 
+def folder_args(ids, n_saves):
+    n = len(ids)
+    e = 1 + (ids[0] // 1000) % 2 if ids else 1
+    series = np.repeat(np.array(ids, dtype=float).reshape(n, 1, 1, 1), e, axis=1)
+    params = np.array(ids, dtype=float).reshape(n, 1)
+    return (np.zeros((2, 1)), np.ones(1), np.zeros((1, 1)), 1, 1, 1, None, False, None, 0, np.random.default_rng(0).bit_generator.state, "m", "s", "l", n_saves, n, 1,
+            params, np.array(ids, dtype=float), series, np.zeros(n, dtype=int), np.zeros(n, dtype=int))
+
+
+def other_process_takes_over(chk: Check, rng):
+    """this process saves run A into a folder; ANOTHER process saves a different run B of exactly the same shape into it; this process saves A
+    again (grown): what is restored must be A's state — whatever a process remembers about its own earlier writes, the folder may have changed"""
+    import pickle, subprocess, sys
+    from black_it.utils import json_pandas_checkpointing as jp
+    from vp.core import VERIF
+    child = VERIF / "harness/children/save_child.py"
+    for _ in range(2 if chk.tier == "quick" else 10):
+        n1 = rng.randint(2, 5)
+        a1 = [2000 + j for j in range(n1)]                      # even run id: ensemble 1
+        b = [4000 + j for j in range(n1)]                       # another run, same number of rows, same layout
+        a2 = a1 + [2000 + n1 + j for j in range(rng.randint(0, 3))]
+        folder = tempfile.mkdtemp(prefix="vpc04x")
+        statefile = tempfile.mktemp(prefix="vpc04state")
+        try:
+            jp.save_calibrator_state(folder, *folder_args(a1, 1))
+            pickle.dump(folder_args(b, 1), open(statefile, "wb"))
+            env = dict(os.environ, PYTHONPATH=str(VERIF / "harness") + os.pathsep + os.environ.get("PYTHONPATH", ""))
+            p = subprocess.run([sys.executable, str(child), "json", folder, statefile], capture_output=True, text=True, env=env, timeout=120)
+            if "SAVED" not in p.stdout:
+                raise HarnessError("the other process could not save: " + p.stderr[-300:])
+            jp.save_calibrator_state(folder, *folder_args(a2, 2))
+            got = jp.load_calibrator_state(folder, 0)
+            ser = [int(x) for x in got[19][:, 0].reshape(-1)]
+        finally:
+            shutil.rmtree(folder, ignore_errors=True)
+            with contextlib.suppress(FileNotFoundError):
+                os.remove(statefile)
+        chk.case(["other-process", a1, b, a2], True, {"saved_here": a1, "saved_by_another_process": b, "saved_here_again": a2, "restored_series_ids": ser})
+        chk.count("folder_taken_over_by_another_process")
+        if ser != a2:
+            chk.fail(f"a folder rewritten by another process in between: saved series ids {a2}, restored {ser}", {"case": {"kind": "other-process", "a1": a1, "b": b, "a2": a2}})
+
+
 def run(chk: Check):
     rng = chk.rng
     chk.rule = ("(i) serialiser contracts: random floats (mantissa x exponent, grid-like decimals, subnormals, 1e+-300, +-inf, -0.0) through the real CSV/JSON/HDF5 "
@@ -216,6 +262,11 @@ def run(chk: Check):
             if cfg["lineup"][0][0] == "BestBatchSampler":
                 cfg["lineup"].insert(0, ("HaltonSampler", 4, None))
             chk.count("wide:dims>=10")
+        if i % 3 == 2:
+            # explicit checkpoints several batches apart onto an earlier checkpoint of the same run, no saving folder
+            cfg["explicit_only"] = True
+            script = [("C", rng.randint(1, 2)), ("K",), ("C", rng.randint(2, 3)), ("K",), ("R",), ("C", 1), ("C", rng.randint(1, 2)), ("K",), ("R",)]
+            chk.count("script:explicit_checkpoints_only")
         if i % 5 == 0:
             script = [("K",), ("R",), ("C", 2), ("R",)]          # zero-batch checkpoint, then continue
         if i % 7 == 3:
@@ -241,6 +292,7 @@ def run(chk: Check):
         import threading
         for t in threading.enumerate():
             pass
+    other_process_takes_over(chk, rng)
     # (iii) folder logic vs Lean
     cases = [folder_logic_case(rng) for _ in range(60 if chk.tier == "quick" else 600)]
     reqs = [f"ckpt.saves {len(s)} " + " ".join(f"{k} {len(ids)} " + " ".join(map(str, ids)) + f" {len(ids)} " + " ".join(map(str, ids)) for k, ids in enumerate(s)) for s in cases]
